@@ -11,3 +11,5 @@ import NemoVerif.Theorems.C01
 import NemoVerif.Drive.C01
 import NemoVerif.Drive.C02
 import NemoVerif.Drive.C03
+import NemoVerif.Theorems.C02
+import NemoVerif.Theorems.C03
